@@ -384,6 +384,28 @@ class StmtMixin:
             else:
                 params.append('%s %s' % (t.c, nm))
                 self.vars[p['id']] = ('val', nm)
+        # iterator parameters: associate the container (a sibling parameter or the unique member of that type)
+        for p in self.params_of(d):
+            try: t = self.tyq(p['type'])
+            except Unsupported: continue
+            if t.kind in ('iter', 'riter') and t.elem is not None:
+                cands = []
+                for q in self.params_of(d):
+                    try: tq = self.tyq(q['type'])
+                    except Unsupported: continue
+                    if tq.kind == t.elem.kind and tq.c == t.elem.c and q['id'] in self.vars:
+                        mode, nm = self.vars[q['id']]
+                        cands.append('(*%s)' % nm if mode == 'ptr' else nm)
+                if not cands and owner is not None and self.this_mode:
+                    for f in owner.get('inner', []):
+                        if f.get('kind') != 'FieldDecl': continue
+                        try: tf = self.tyq(f['type'])
+                        except Unsupported: continue
+                        if tf.kind == t.elem.kind and tf.c == t.elem.c:
+                            cands.append(('this_->%s' if self.this_mode == 'ptr' else 'this_v.%s') % f['name'])
+                if len(cands) == 1:
+                    self.iter_of[p['id']] = cands[0]; self.iter_ty[p['id']] = t.elem
+                    self.rules['iterator-parameter-bound-to-container'] += 1
         if self.ctor_mode:
             rc = self.rec_cname(owner)
             self.cur_ret = Ty('rec', rc)
